@@ -4,6 +4,8 @@ set -u
 cd /verif
 b=$1
 unresolved=0
+if [ -f .git/MERGE_HEAD ]; then echo "A MERGE IS IN PROGRESS: conclude it first (git add + git commit)"; exit 1; fi
+if ! git diff --quiet || ! git diff --cached --quiet; then echo "WORKING TREE DIRTY: commit first"; exit 1; fi
 git merge "$b" -m "Merge $b" >/dev/null 2>&1
 for f in $(git diff --name-only --diff-filter=U); do
   case "$f" in
